@@ -38,25 +38,44 @@ def _loc_points(r):
     return [("centre", (0, 0)), ("ylow", (0, 0))]
 
 
-def build(env, orthogonal, bpsign, cs=1.0, bt_sign=1.0, psi_div=None):
+def build(env, orthogonal, bpsign, cs=1.0, bt_sign=1.0, psi_div=None, hy_any_sign=False, locs=None):
     """stub region with symbolic R, hy, Bp, Bt (and beta) -> real geometry2 + calcMetric"""
+    LOCS_ = LOCS if locs is None else locs
     r = stub_region(1, 1, orthogonal)
     if env.mode == "conc":
         # concrete replays run in IEEE doubles: the code's own Jacobian self-check (rtol 1e-10) must not trip on rounding of ill-conditioned inputs
         r.user_options.geometry_rtol = 1.0e-6
     r.bpsign = bpsign
-    r.Rxy = mk_mla(env, 1, 1, "R", LOCS, pos=True)
-    hy = mk_mla(env, 1, 1, "hy", LOCS, pos=True)
-    bpabs = mk_mla(env, 1, 1, "Bpabs", LOCS, pos=True)
+    r.Rxy = mk_mla(env, 1, 1, "R", LOCS_, pos=True)
+    hy = mk_mla(env, 1, 1, "hy", LOCS_, pos=True)
+    bpabs = mk_mla(env, 1, 1, "Bpabs", LOCS_, pos=True)
+    bt = mk_mla(env, 1, 1, "Bt", LOCS_)
+    chosen = None
+    if hy_any_sign:
+        # ONE entry (chosen by the explorer: every entry of every location in turn) is symbolic, with hy of either sign there; all other
+        # entries hold fixed admissible numbers (the check is entry-wise)
+        entries = [(loc, idx) for loc in LOCS_ for idx in numpy.ndindex(getattr(hy, loc).shape)]
+        chosen = entries[env.choose(len(entries))]
+        env.tag("free=%s%s" % (chosen[0], list(chosen[1])))
+        for (loc, idx) in entries:
+            if (loc, idx) == chosen:
+                getattr(hy, loc)[idx] = env.real("hy_free_sign", nonzero=True)
+            else:
+                K = (lambda v: core.SymReal(core.lift_real(v))) if env.mode == "sym" else float
+                getattr(r.Rxy, loc)[idx], getattr(hy, loc)[idx], getattr(bpabs, loc)[idx], getattr(bt, loc)[idx] = K(2.0), K(0.5), K(0.25), K(1.5)
     r.Bpxy = bpsign * bpabs
     if psi_div is not None:
         r.Bpxy = r.Bpxy / psi_div  # psi -> psi/k scales the poloidal field
-    r.Btxy = bt_sign * mk_mla(env, 1, 1, "Bt", LOCS)
+    r.Btxy = bt_sign * bt
     if not orthogonal:
         cb = MultiLocationArray(1, 1)
         sb = MultiLocationArray(1, 1)
-        for loc in LOCS:
+        for loc in LOCS_:
             for idx in numpy.ndindex(getattr(cb, loc).shape):
+                if chosen is not None and (loc, idx) != chosen:
+                    K = (lambda v: core.SymReal(core.lift_real(v))) if env.mode == "sym" else float
+                    getattr(cb, loc)[idx], getattr(sb, loc)[idx] = K(cs * 0.8), K(0.6)
+                    continue
                 # |t| <= 3/4: cos >= 7/25 (beta up to ~74 degrees either side); sign of cos from cs
                 c, s = _unit(env, "t_%s_%d_%d" % ((loc,) + idx), lo=-0.75, hi=0.75)
                 getattr(cb, loc)[idx] = cs * c
@@ -69,7 +88,7 @@ def build(env, orthogonal, bpsign, cs=1.0, bt_sign=1.0, psi_div=None):
     r.calc_curvature = lambda: None
     if env.mode == "sym":
         env.sqrt_hints = list(getattr(env, "sqrt_hints", [])) + [core.lift_real(getattr(r.Bpxy, loc)[idx]) / core.lift_real(getattr(hy, loc)[idx])
-                                                                  for loc in LOCS for idx in numpy.ndindex(getattr(hy, loc).shape)]
+                                                                  for loc in LOCS_ for idx in numpy.ndindex(getattr(hy, loc).shape)]
     r.geometry2()
     return r, hy, bpabs
 
@@ -84,6 +103,32 @@ def run_metric(env, r):
         return False
     env.claim("jacobian_selfcheck_cannot_fail", True)
     return True
+
+
+def _mk_jacobian_guard(orthogonal, bpsign):
+    """the run-time Jacobian check is the last guard against a folded cell (hy <= 0) reaching the file: with hy of arbitrary sign at one
+    entry (every entry of all four locations in turn), calcMetric returns only if that hy > 0"""
+    def body(env):
+        all_locs = ("centre", "xlow", "ylow", "corners")
+        with sym_numpy(env):
+            r, hy, bpabs = build(env, orthogonal, bpsign, hy_any_sign=True, locs=all_locs)
+            try:
+                r.calcMetric()
+            except ValueError:
+                env.tag("raised")
+                neg = None
+                for loc in all_locs:
+                    for idx in numpy.ndindex(getattr(hy, loc).shape):
+                        c = getattr(hy, loc)[idx] < 0
+                        neg = c if neg is None else (neg | c if env.mode == "sym" else (neg or c))
+                env.claim("raises_only_if_some_hy_is_negative", neg)
+                return
+        env.tag("returned")
+        env.witness("returned")
+        for loc in all_locs:
+            for idx in numpy.ndindex(getattr(hy, loc).shape):
+                env.claim("returns_only_if_hy>0_everywhere:%s" % loc, getattr(hy, loc)[idx] > 0)
+    return body
 
 
 def G(r, n, loc, idx):
@@ -310,18 +355,43 @@ def _mk_geometry1(psi_increasing):
             else:
                 env.assume((p0 > p1) & (p1 > p2))
             r.psi_vals = numpy.array([p0, p1, p2], dtype=object if env.mode == "sym" else float)
-            br = mk_mla(env, nx, ny, "Br", locs)
-            bz = mk_mla(env, nx, ny, "Bz", locs)
-            psi = mk_mla(env, nx, ny, "psi", locs)
-            fp = mk_mla(env, nx, ny, "fpol", locs)
+            # equilibrium functions: uninterpreted functions of the POINT they are evaluated at (of psi for fpol), applied entry by entry, so that
+            # a value taken at another location's coordinates / another location's psi is a different term
+            sym = env.mode == "sym"
+            ufs = {}
+
+            def field(name, nargs, conc):
+                if sym:
+                    ufs[name] = z3.Function(name, *([z3.RealSort()] * (nargs + 1)))
+
+                def f(*args):
+                    out = MultiLocationArray(nx, ny)
+                    for loc in locs:
+                        arrs = [getattr(a, loc) for a in args]
+                        if any(a is None for a in arrs):
+                            continue
+                        dst = getattr(out, loc)
+                        for idx in numpy.ndindex(dst.shape):
+                            vals = [a[idx] for a in arrs]
+                            dst[idx] = core.SymReal(ufs[name](*[core.lift_real(v) for v in vals])) if sym else conc(*[float(v) for v in vals])
+                    return out
+                return f
+
+            f_psi = field("psi_of_RZ", 2, lambda R, Z: 0.3 * R - 0.2 * Z + 0.05 * R * Z)
+            f_br = field("Br_of_RZ", 2, lambda R, Z: 0.7 + 0.1 * R + 0.3 * Z)
+            f_bz = field("Bz_of_RZ", 2, lambda R, Z: -0.4 + 0.2 * R - 0.1 * Z)
+            f_fpol = field("fpol_of_psi", 1, lambda p: 2.0 + 0.5 * p + 0.25 * p * p)
+            psi, br, bz = f_psi(r.Rxy, r.Zxy), f_br(r.Rxy, r.Zxy), f_bz(r.Rxy, r.Zxy)
+            fp = f_fpol(psi)
             pr = mk_mla(env, nx, ny, "pres", locs)
             for loc in locs:
-                env.assume(sand(*[(a * a + b * b > 0) for a, b in zip(getattr(br, loc).flat, getattr(bz, loc).flat)]), "Bp != 0")
-            eqr = types.SimpleNamespace(pressure=lambda x: pr)
+                env.assume(sand(*[(a * a + b * b > 0) for a, b in zip(getattr(br, loc).flat, getattr(bz, loc).flat)]) if sym else
+                           all(a * a + b * b > 0 for a, b in zip(getattr(br, loc).flat, getattr(bz, loc).flat)), "Bp != 0")
+            seen_pressure_arg = []
+            eqr = types.SimpleNamespace(pressure=lambda x: (seen_pressure_arg.append(x), pr)[1])
             r.meshParent = types.SimpleNamespace(
                 dy_scalar=env.real("dy", pos=True),
-                equilibrium=types.SimpleNamespace(psi=lambda R, Z: psi, Bp_R=lambda R, Z: br, Bp_Z=lambda R, Z: bz,
-                                                  fpol=lambda p: fp, regions={"stub": eqr}))
+                equilibrium=types.SimpleNamespace(psi=f_psi, Bp_R=f_br, Bp_Z=f_bz, fpol=f_fpol, regions={"stub": eqr}))
             r.calcPoloidalDistance = lambda: None
             try:
                 r.geometry1()
@@ -353,8 +423,10 @@ def _mk_geometry1(psi_increasing):
             env.claim("sign(Bp.dy)=bpsign", (dot >= 0) if psi_increasing else (dot < 0))
             env.claim_eq("dx.centre", r.dx.centre[0, 0], p2 - p0)
             env.claim_eq("dx.ylow", r.dx.ylow[0, 0], p2 - p0)
-            env.claim("psixy_is_equilibrium_psi", r.psixy is psi)
-            env.claim("pressure_is_region_pressure", r.pressure is pr)
+            for loc in locs:
+                for idx in numpy.ndindex(getattr(psi, loc).shape):
+                    env.claim_eq("psixy=psi(R,Z)_of_the_same_point@%s" % loc, getattr(r.psixy, loc)[idx], getattr(psi, loc)[idx])
+            env.claim("pressure_is_region_pressure_of_psixy", r.pressure is pr and len(seen_pressure_arg) == 1 and seen_pressure_arg[0] is r.psixy)
     return body
 
 
